@@ -56,6 +56,7 @@ pub fn lookup(scen: &str) -> Option<Scenario> {
         "rtsweep" => scen_rt::run_short_sweep,
         "synth" => scen_synth::run,
         "bent" => scen_bent::run,
+        "c17gen" => scen_c17::run_gen,
         "sizes" => scen_rt::run_sizes,
         "dmggen" => scen_dmg::run_gen,
         "c06gen" => scen_rd::run_c06_gen,
@@ -156,6 +157,53 @@ fn fmt_choices(v: &[u64]) -> String {
     s
 }
 
+// ------------------------------------------------------------------------------------------
+// wall-clock watchdog: the simulated sources detect a reader that polls them forever (SIM-HANG), but
+// a loop that never touches a simulated source (e.g. over an in-memory Cursor) would spin for good.
+// One run that exceeds VERIF_RUN_TIMEOUT_S seconds is reported as a hang and the process ends; the
+// orchestrator attributes it to the run and carries on after it. The limit is far above any
+// legitimate run (the longest take a few seconds), so it does not decide anything on a healthy tree.
+
+static WD_RUN: std::sync::atomic::AtomicU64 = std::sync::atomic::AtomicU64::new(u64::MAX);
+static WD_START_MS: std::sync::atomic::AtomicU64 = std::sync::atomic::AtomicU64::new(0);
+
+fn now_ms() -> u64 {
+    use std::time::{SystemTime, UNIX_EPOCH};
+    SystemTime::now().duration_since(UNIX_EPOCH).map(|d| d.as_millis() as u64).unwrap_or(0)
+}
+
+/// marks the start of run `run` (u64::MAX = no run in progress)
+fn watchdog_mark(run: u64) {
+    use std::sync::atomic::Ordering::SeqCst;
+    WD_START_MS.store(now_ms(), SeqCst);
+    WD_RUN.store(run, SeqCst);
+}
+
+fn start_watchdog(replay: bool) {
+    let limit_s: u64 = std::env::var("VERIF_RUN_TIMEOUT_S").ok().and_then(|v| v.parse().ok()).unwrap_or(600);
+    std::thread::spawn(move || {
+        use std::sync::atomic::Ordering::SeqCst;
+        loop {
+            std::thread::sleep(std::time::Duration::from_millis(500));
+            let run = WD_RUN.load(SeqCst);
+            if run == u64::MAX {
+                continue;
+            }
+            let started = WD_START_MS.load(SeqCst);
+            if now_ms().saturating_sub(started) > limit_s * 1000 {
+                if replay {
+                    println!(
+                        "RESULT {{\"violation\":true,\"class\":\"hang\",\"msg\":\"the run did not finish within {limit_s} s of wall clock (a loop that makes no progress and touches no simulated source)\"}}"
+                    );
+                    std::process::exit(0);
+                }
+                eprintln!("HANG run={run} after {limit_s}s");
+                std::process::exit(3);
+            }
+        }
+    });
+}
+
 fn main() {
     let args: Vec<String> = std::env::args().collect();
     if args.len() < 2 {
@@ -163,6 +211,11 @@ fn main() {
         std::process::exit(2);
     }
     monitor::install_panic_hook();
+    match args[1].as_str() {
+        "run" | "shrink" => start_watchdog(false),
+        "replay" | "replay-gen" => start_watchdog(true),
+        _ => {}
+    }
     match args[1].as_str() {
         "run" => cmd_run(&args[2..]),
         "replay" => cmd_replay(&args[2..]),
@@ -222,7 +275,9 @@ fn cmd_run(a: &[String]) {
         }
         let ch = Choices::generate(run_seed(seed, prop, scen_name, run));
         let want = samples.len() < 3 && (run - from) % 97 == 0;
+        watchdog_mark(run);
         let r = execute(prop, scen, tier, ch, false, want, run);
+        watchdog_mark(u64::MAX);
         evals += r.evals.len() as u64;
         events += r.events;
         for (fp, nt) in &r.evals {
@@ -288,7 +343,9 @@ fn cmd_replay_gen(a: &[String]) {
         std::process::exit(2);
     };
     let ch = Choices::generate(run_seed(seed, prop, scen_name, run));
+    watchdog_mark(run);
     let r = execute(prop, scen, tier, ch, true, true, run);
+    watchdog_mark(u64::MAX);
     print_replay(r);
 }
 
@@ -301,7 +358,9 @@ fn cmd_replay(a: &[String]) {
         eprintln!("unknown scenario {scen_name}");
         std::process::exit(2);
     };
+    watchdog_mark(0);
     let r = execute(prop, scen, tier, Choices::replay(vals), true, true, 0);
+    watchdog_mark(u64::MAX);
     print_replay(r);
 }
 
@@ -359,10 +418,12 @@ fn cmd_framesinfo(files: &[String]) {
                 }
                 let a = s.meta.audio_start.min(bytes.len());
                 println!(
-                    "{{\"ok\":true,\"len\":{},\"audio_start\":{},\"frames\":{},\"samples\":{},\"pcm_md5\":\"{:x}\",\"audio_md5\":\"{:x}\",\"meta_md5\":\"{:x}\",\"end\":\"{}\",\"valid\":{}}}",
+                    "{{\"ok\":true,\"len\":{},\"audio_start\":{},\"frames\":{},\"frame_ends\":{:?},\"frame_samples\":{:?},\"samples\":{},\"pcm_md5\":\"{:x}\",\"audio_md5\":\"{:x}\",\"meta_md5\":\"{:x}\",\"end\":\"{}\",\"valid\":{}}}",
                     bytes.len(),
                     s.meta.audio_start,
                     s.frames.len(),
+                    s.frames.iter().map(|f| f.end).collect::<Vec<_>>(),
+                    s.frames.iter().map(|f| f.block_size as usize * f.channels as usize).collect::<Vec<_>>(),
                     pcm.len(),
                     md5::compute(&b),
                     md5::compute(&bytes[a..]),
